@@ -191,7 +191,7 @@ pub fn run(args: Args) -> ! {
     rep.assumptions = vec!["whether both parsers agree with TOML itself is C01's business; C12 compares them with each other".into()];
     KNOWN_F2.store(rep.is_known("F2"), std::sync::atomic::Ordering::Relaxed);
     if let Some(p) = &args.replay {
-        let j = super::load_replay(p);
+        let j = super::load_replay_any(p);
         let mut st = Stats::new();
         let r = if let Some(s) = j["case"]["string"].as_str() {
             check_string(s, &mut st)
